@@ -134,6 +134,6 @@ pub fn obl_velocity_calc(s: &mut Src, ctx: &mut Ctx, st_fixed: u8, part: u8) {
         }
     }
     vcover!(!(st == 1 || st == 2) || spec.is_some(), "cover: a ground-speed report with information");
-    vcover!(part == 1 || (spec.is_none() && (st == 1 || st == 2)), "cover: a ground-speed report without information");
+    vcover!(part == 1 || !(st == 1 || st == 2) || spec.is_none(), "cover: a ground-speed report without information");
 }
 
